@@ -18,7 +18,8 @@ EXHAUSTIVE = {"quick": False, "thorough": False}
 EXPLANATION = ("Connectivity is proved equal to reachability in the stated graph through a verified "
                "reachability library (Base/Graph.v); the other tests and the scope/conjoin structure are proved "
                "against their definitions. descendants/representatives are modelled with explicit fuel and tied "
-               "by correspondence; their termination bound is not yet a theorem.")
+               "by correspondence; that the fuel (one more than the number of predications) always suffices is "
+               "a theorem (C07_descendants_total, C07_representatives_total).")
 ASSUMPTIONS = [
     "variables are sort+digits over ASCII; variable.split is modelled on that class",
     "the start node of _bfs (first key of a dict built from a set) is arbitrary in Python; the model starts "
@@ -33,10 +34,10 @@ LEVEL_TEXT = ("Proof (Coq, no axioms): is_connected is true exactly when every p
               "tests equal their definitions; is_well_formed is exactly the conjunction; the scope map holds "
               "under each label exactly the predications with that label in order; conjoin yields exactly the "
               "connected components of the label equalities with the members of their labels; the DMRS top scope "
-              "exists and contains the top node itself. All seven public functions plus descendants and "
+              "exists and contains the top node itself; descendants and representatives terminate on every "
+              "structure whatever cycles its labels and handle constraints form. All seven public functions plus descendants and "
               "representatives are tied to the code by kernel-checked correspondence on arbitrary structures.")
-LEVEL_NOTE = ("Partial: termination of descendants/representatives is by explicit fuel (never exhausted in the "
-              "correspondence) without a fuel-suffices theorem; 'every scope of a well-formed structure has a "
+LEVEL_NOTE = ("Partial: 'every scope of a well-formed structure has a "
               "representative' is refuted (known finding F8). One defect (F7) repaired by a fix: commit.")
 TECHNIQUE = "Coq proof over a verified reachability library + kernel-checked correspondence"
 DESIGN_REF = "DESIGN.md section 6, C07"
